@@ -1,6 +1,6 @@
 SPECIFICATION Spec
 CONSTANTS
-  TTL = 2
+  TTL = 3
   WithClient = FALSE
-  MCQtypes = {"A", "AAAA", "HTTPS", "TXT"}
+  MCQtypes = {"A", "AAAA", "TXT"}
 INVARIANTS TypeOK OnlyListedEnabled ListedEnabledAlways ClientPrecedence MemoryCurrent
